@@ -175,6 +175,7 @@ func (in *inliner) expandKids(m *Mod, scopes [][]*Grouping, kids []*Node) []*Nod
 		// the grouping body is expanded in the scope of its defining module
 		gscopes := [][]*Grouping{gm.Groupings, g.Groupings}
 		body := in.expandKids(gm, gscopes, Clone(g.Kids))
+		markDefMod(body, gm.Name)
 		for _, r := range k.Refines {
 			t := findNode(body, r.Target)
 			if t == nil {
@@ -277,4 +278,13 @@ func Inline(mods []*Mod) ([]*Mod, []AugNote, error) {
 		m.Groupings = nil
 	}
 	return out, in.notes, in.err
+}
+
+func markDefMod(kids []*Node, mod string) {
+	for _, k := range kids {
+		if k.DefMod == "" {
+			k.DefMod = mod
+		}
+		markDefMod(k.Kids, mod)
+	}
 }
